@@ -22,7 +22,7 @@ pub fn load_findings() -> Vec<KnownFinding> {
     let p = format!("{}/known_findings.json", home());
     match std::fs::read_to_string(&p) {
         Ok(s) => serde_json::from_str(&s).unwrap_or_else(|e| {
-            eprintln!("HARNESS-ERROR: cannot parse {}: {}", p, e);
+            println!("HARNESS-ERROR: cannot parse {}: {}", p, e);
             std::process::exit(2)
         }),
         Err(_) => vec![],
@@ -358,6 +358,8 @@ fn replay_path(property: &str, run: &Run) -> String {
 }
 
 pub fn check(cfg: &CheckCfg) -> i32 {
+    crate::session::install_panic_hook();
+    silence_stderr();
     let t0 = Instant::now();
     let root = root_seed();
     println!("SEED {} property={} tier={} runs={} workers={}", root, cfg.property, cfg.tier, cfg.runs, cfg.workers);
@@ -371,7 +373,18 @@ pub fn check(cfg: &CheckCfg) -> i32 {
     let mut reported: Vec<(Violation, String)> = vec![];
 
     // stalls and crashes: re-run alone with per-operation progress; only a reproduced one counts
+    let mut triaged: BTreeMap<String, u32> = BTreeMap::new();
+    let mut suspects = suspects;
+    suspects.sort();
     for (idx, kind) in suspects {
+        // a few of each kind are triaged (each costs up to a minute); the rest are counted
+        let n = triaged.entry(kind.clone()).or_insert(0);
+        *n += 1;
+        if *n > 3 {
+            agg.stats.probe("suspect_runs_not_triaged");
+            agg.results += 1;
+            continue;
+        }
         let run = plan(&corpus, &cfg.property, &cfg.tier, root, idx);
         match exec_isolated(&run, Duration::from_secs(60)) {
             Isolated::Done(out) => {
@@ -394,6 +407,7 @@ pub fn check(cfg: &CheckCfg) -> i32 {
                 let v = Violation { property: "C04".into(), class: class.clone(), detail: json!({"stalled_at_op": at_op, "limit_s": 60}), op_index: at_op };
                 agg.violations.entry(("C04".into(), class)).or_insert((idx, v.clone()));
                 agg.stats.probe("confirmed_hang");
+                agg.results += 1;
                 stash_special(&mut agg, idx, r, v);
             }
             Isolated::Crashed { at_op, status } => {
@@ -406,6 +420,7 @@ pub fn check(cfg: &CheckCfg) -> i32 {
                 let v = Violation { property: "C04".into(), class: class.clone(), detail: json!({"crashed_at_op": at_op, "status": status}), op_index: at_op };
                 agg.violations.entry(("C04".into(), class)).or_insert((idx, v.clone()));
                 agg.stats.probe("confirmed_crash");
+                agg.results += 1;
                 stash_special(&mut agg, idx, r, v);
             }
         }
@@ -433,7 +448,9 @@ pub fn check(cfg: &CheckCfg) -> i32 {
         };
         run.violation_class = class.clone();
         run.property = if run.variants.is_empty() { run.property.clone() } else { "C10".into() };
-        run.observed = json!({"property": prop, "class": class, "detail": v.detail, "first_seen_in_run": idx, "root_seed": root});
+        // what the minimised run itself shows (the detail of the original run may differ)
+        let detail = if class == "hang" || class.starts_with("crash") { v.detail.clone() } else { minimize::reproduces(&run, &opts, &prop, &class).map(|m| m.detail).unwrap_or(v.detail.clone()) };
+        run.observed = json!({"property": prop, "class": class, "detail": detail, "first_seen_in_run": idx, "root_seed": root});
         let path = replay_path(&prop, &run);
         std::fs::write(&path, serde_json::to_string_pretty(&run).unwrap()).expect("write replay file");
         // the minimised file must reproduce in a fresh process
@@ -600,14 +617,14 @@ pub fn replay_file(path: &str, quiet: bool) -> i32 {
     let s = match std::fs::read_to_string(path) {
         Ok(s) => s,
         Err(e) => {
-            eprintln!("HARNESS-ERROR: cannot read {}: {}", path, e);
+            println!("HARNESS-ERROR: cannot read {}: {}", path, e);
             return 2;
         }
     };
     let run: Run = match serde_json::from_str(&s) {
         Ok(r) => r,
         Err(e) => {
-            eprintln!("HARNESS-ERROR: cannot parse {}: {}", path, e);
+            println!("HARNESS-ERROR: cannot parse {}: {}", path, e);
             return 2;
         }
     };
